@@ -119,7 +119,7 @@ theorem subPick_none (a : Algo) (bs : List Be) (h : Nat) (hp : (subPick a bs h).
           (Int.emod_nonneg _ (by omega)) (Int.emod_lt_of_pos _ hW)
         rw [hk] at hp; simp at hp
 
-theorem hasElig_false_iff (s : SubSt) : hasElig s = false ↔ ∀ b ∈ s.bs, elig b = false := by
+theorem hasElig_false_iff (a : Algo) (s : SubSt) : hasElig a s = false ↔ ∀ b ∈ effBs a s, elig b = false := by
   unfold hasElig; simp
 
 theorem mem_findSub (c : Cl) (name : String) (s : SubSt) (h : findSub c name = some s) : s ∈ c.subs :=
@@ -161,21 +161,21 @@ def resOk : Res → Bool
   | .err _ _ => false
 
 theorem subPick_isSome (a : Algo) (s : SubSt) (h : Nat) :
-    (∃ b, (subPick a s.bs h).1 = some b) ↔ hasElig s = true := by
+    (∃ b, (subPick a (effBs a s) h).1 = some b) ↔ hasElig a s = true := by
   constructor
   · rintro ⟨b, hb⟩
-    obtain ⟨hm, he⟩ := subPick_some a s.bs h b hb
+    obtain ⟨hm, he⟩ := subPick_some a (effBs a s) h b hb
     unfold hasElig; exact List.any_eq_true.mpr ⟨b, hm, he⟩
   · intro he
-    cases hp : (subPick a s.bs h).1 with
+    cases hp : (subPick a (effBs a s) h).1 with
     | some b => exact ⟨b, rfl⟩
     | none =>
-      have := (hasElig_false_iff s).mpr (subPick_none a s.bs h hp)
+      have := (hasElig_false_iff a s).mpr (subPick_none a (effBs a s) h hp)
       rw [this] at he; exact absurd he (by decide)
 
 theorem crossPart_ok_iff (c c1 : Cl) (cur : SubSt) (r : Int) (h n : Nat) :
     resOk (crossPart c c1 cur r h n).1 = true ↔
-      (0 < c.crossRetry ∧ ∃ o, randomSelectExclude c cur n = some o ∧ hasElig o = true) := by
+      (0 < c.crossRetry ∧ ∃ o, randomSelectExclude c cur n = some o ∧ hasElig c.algo o = true) := by
   unfold crossPart
   by_cases hc : c.crossRetry ≤ 0
   · simp only [hc, if_true, resOk]
@@ -189,15 +189,15 @@ theorem crossPart_ok_iff (c c1 : Cl) (cur : SubSt) (r : Int) (h n : Nat) :
       simp only []
       split
       · rename_i b bs' hp
-        have : hasElig o = true := (subPick_isSome c.algo o h).mp ⟨b, by rw [hp]⟩
+        have : hasElig c.algo o = true := (subPick_isSome c.algo o h).mp ⟨b, by rw [hp]⟩
         simp [resOk, this]; omega
       · rename_i bs' hp
-        have : hasElig o = false := (hasElig_false_iff o).mpr (subPick_none c.algo o.bs h (by rw [hp]))
+        have : hasElig c.algo o = false := (hasElig_false_iff c.algo o).mpr (subPick_none c.algo (effBs c.algo o) h (by rw [hp]))
         simp [resOk, this]
 
 theorem crossPart_ok (c c1 : Cl) (cur : SubSt) (r : Int) (h n : Nat) (sub : String) (b : Be)
     (hres : (crossPart c c1 cur r h n).1 = .ok sub b) :
-    ∃ o, randomSelectExclude c cur n = some o ∧ o.name = sub ∧ (subPick c.algo o.bs h).1 = some b := by
+    ∃ o, randomSelectExclude c cur n = some o ∧ o.name = sub ∧ (subPick c.algo (effBs c.algo o) h).1 = some b := by
   unfold crossPart at hres
   split at hres
   · simp at hres
